@@ -269,6 +269,14 @@ class EngineC13:
                     step["mask"][0] = 1
             if g.random() < 0.3:
                 step["fault"] = {"where": g.choice(["function_handle", "gradient_handle", "callback"]), "at": g.randint(1, 6)}
+            elif g.random() < 0.4:
+                # cross-validation style: an earlier solve on the SAME data object with another hold-out mask
+                pm = [int(g.random() < 0.7) for _ in range(x.size)]
+                if not any(pm):
+                    pm[-1] = 1
+                if all(pm):
+                    pm[0] = 0
+                step["prior_fold"] = pm
         return step
 
     def _finish(self, res):
@@ -666,8 +674,9 @@ class EngineC13:
 
         return wrapped
 
-    def _solve_once(self, optimizer, step, tick, with_fault: bool):
-        """One gcp_opt call in a fresh world. Returns dict(outcome)."""
+    def _solve_once(self, optimizer, step, tick, with_fault: bool, prior: bool = False):
+        """One gcp_opt call in a fresh world. Returns dict(outcome). With ``prior`` (and a recorded ``prior_fold``) the
+        call is preceded by another solve on the same data object and optimizer under the other hold-out mask."""
         ttb = self.ttb
         x, data = self._make_data(step)
         obj, fh, gh, lb = self._handles(step, data)
@@ -692,6 +701,10 @@ class EngineC13:
                     if step.get("mask") is not None:
                         mask = ttb.tensor(np.array(step["mask"], dtype=float).reshape(x.shape, order="F"))
                     out["mask"] = None if mask is None else mask.data.copy()
+                    if prior and step.get("prior_fold") is not None and len(step["prior_fold"]) == x.size:
+                        pmask = ttb.tensor(np.array(step["prior_fold"], dtype=float).reshape(x.shape, order="F"))
+                        ttb.gcp_opt(data, step["rank"], obj if use_enum else (fh, gh, lb), optimizer, init=ttb.ktensor([f.copy() for f in factors]), mask=pmask, printitn=0)
+                        out["prior_done"] = True
                     M, M0, info = ttb.gcp_opt(data, step["rank"], objective, optimizer, init=init, mask=mask, printitn=0)
                 out.update(M=M, M0=M0, info=info)
             except Exception as e:  # noqa: BLE001
@@ -863,7 +876,9 @@ class EngineC13:
                 res.events.append([i, "aborted"])
                 return None
         else:
-            out = self._solve_once(opt, step_eff, step["tick"], True)
+            out = self._solve_once(opt, step_eff, step["tick"], True, prior=fault is None)
+            if out.get("prior_done"):
+                res.bump("probe:earlier_solve_on_same_data_object")
             c = out["counters"]
             if fault and c.get("fault_fired"):
                 res.bump("fault:" + fault["where"])
